@@ -128,3 +128,151 @@ Section Generic.
       + right; left; split; auto. intros ->. rewrite (proj2 (cmp_eq k k) eq_refl) in Hc. discriminate.
   Qed.
 End Generic.
+
+(* ---------------- total-order facts for the key orders ---------------- *)
+Lemma cmp_then_antisym c d c' d' :
+  c' = CompOpp c -> d' = CompOpp d -> cmp_then c' d' = CompOpp (cmp_then c d).
+Proof. intros -> ->. destruct c; reflexivity. Qed.
+
+Lemma ncompare_antisym a b : N.compare b a = CompOpp (N.compare a b).
+Proof. apply N.compare_antisym. Qed.
+
+Lemma addr_cmp_antisym a b : addr_cmp b a = CompOpp (addr_cmp a b).
+Proof.
+  destruct a as [i p|i p], b as [j q|j q]; cbn; try reflexivity;
+    apply cmp_then_antisym; apply ncompare_antisym.
+Qed.
+
+Lemma id_cmp_antisym a b : id_cmp b a = CompOpp (id_cmp a b).
+Proof.
+  unfold id_cmp. apply cmp_then_antisym; [apply bytes_cmp_antisym|].
+  apply cmp_then_antisym; [apply ncompare_antisym|apply addr_cmp_antisym].
+Qed.
+
+Lemma bytes_cmp_eq_l a b c : bytes_cmp a b = Eq -> bytes_cmp a c = bytes_cmp b c.
+Proof. intros H. apply bytes_cmp_eq in H. subst. reflexivity. Qed.
+
+(* lexicographic composition preserves transitivity of Lt *)
+Lemma cmp_then_trans {A B} (ca : A -> A -> comparison) (cb : B -> B -> comparison) :
+  (forall x y, ca x y = Eq -> x = y) ->
+  (forall x y z, ca x y = Lt -> ca y z = Lt -> ca x z = Lt) ->
+  (forall x y z, cb x y = Lt -> cb y z = Lt -> cb x z = Lt) ->
+  forall (x y z : A) (u v w : B),
+    cmp_then (ca x y) (cb u v) = Lt -> cmp_then (ca y z) (cb v w) = Lt ->
+    cmp_then (ca x z) (cb u w) = Lt.
+Proof.
+  intros Heq Hta Htb x y z u v w H1 H2.
+  destruct (ca x y) eqn:E1; cbn in H1; try discriminate.
+  - apply Heq in E1. subst y. destruct (ca x z) eqn:E2; cbn in *; try discriminate; auto.
+    eapply Htb; eauto.
+  - destruct (ca y z) eqn:E2; cbn in H2; try discriminate.
+    + apply Heq in E2. subst z. rewrite E1. reflexivity.
+    + rewrite (Hta _ _ _ E1 E2). reflexivity.
+Qed.
+
+Lemma ncompare_trans x y z : N.compare x y = Lt -> N.compare y z = Lt -> N.compare x z = Lt.
+Proof. rewrite !N.compare_lt_iff. lia. Qed.
+Lemma ncompare_eq x y : N.compare x y = Eq -> x = y.
+Proof. apply N.compare_eq_iff. Qed.
+
+Lemma addr_cmp_trans a b c : addr_cmp a b = Lt -> addr_cmp b c = Lt -> addr_cmp a c = Lt.
+Proof.
+  destruct a as [i p|i p], b as [j q|j q], c as [k r|k r]; cbn; try discriminate; auto;
+    apply (cmp_then_trans N.compare N.compare ncompare_eq ncompare_trans ncompare_trans).
+Qed.
+
+Lemma id_cmp_trans a b c : id_cmp a b = Lt -> id_cmp b c = Lt -> id_cmp a c = Lt.
+Proof.
+  unfold id_cmp.
+  apply (cmp_then_trans bytes_cmp
+           (fun x y : N * addr => cmp_then (N.compare (fst x) (fst y)) (addr_cmp (snd x) (snd y)))
+           (fun x y => proj1 (bytes_cmp_eq x y)) bytes_cmp_trans
+           (fun x y z => cmp_then_trans N.compare addr_cmp ncompare_eq ncompare_trans addr_cmp_trans
+                           (fst x) (fst y) (fst z) (snd x) (snd y) (snd z))
+           (i_name a) (i_name b) (i_name c) (i_gen a, i_addr a) (i_gen b, i_addr b) (i_gen c, i_addr c)).
+Qed.
+
+(* ---------------- sortedness ---------------- *)
+Section Sorted.
+  Context {K V : Type}.
+  Variable cmp : K -> K -> comparison.
+  Hypothesis cmp_eq : forall a b, cmp a b = Eq <-> a = b.
+  Hypothesis cmp_antisym : forall a b, cmp b a = CompOpp (cmp a b).
+  Hypothesis cmp_trans : forall a b c, cmp a b = Lt -> cmp b c = Lt -> cmp a c = Lt.
+
+  (* all keys of [m] are above [k] *)
+  Definition above (k : K) (m : smap K V) : Prop := forall k' v', In (k', v') m -> cmp k k' = Lt.
+
+  Lemma sorted_cons_iff k v (m : smap K V) :
+    sm_sorted cmp ((k, v) :: m) <-> above k m /\ sm_sorted cmp m.
+  Proof.
+    revert k v. induction m as [|[k1 v1] r IH]; intros k v.
+    - cbn. split; [intros _; split; [intros ? ? []|exact I]|auto].
+    - split.
+      + intros [H1 H2]. split; [|exact H2].
+        apply IH in H2 as [Hab Hs]. intros k' v' [Heq|Hin].
+        * injection Heq as <- <-. exact H1.
+        * eapply cmp_trans; [exact H1|]. eapply Hab; eauto.
+      + intros [Hab Hs]. split; [|exact Hs]. eapply Hab. left; reflexivity.
+  Qed.
+
+  Lemma sm_insert_sorted k v (m : smap K V) : sm_sorted cmp m -> sm_sorted cmp (sm_insert cmp k v m).
+  Proof.
+    induction m as [|[k0 v0] r IH]; intros Hs.
+    - cbn. auto.
+    - cbn [sm_insert]. destruct (cmp k k0) eqn:Hc.
+      + apply cmp_eq in Hc. subst k0. apply sorted_cons_iff in Hs as [Hab Hs].
+        apply sorted_cons_iff. split; assumption.
+      + apply sorted_cons_iff. split; [|exact Hs].
+        apply sorted_cons_iff in Hs as [Hab Hs']. intros k' v' [Heq|Hin].
+        * injection Heq as <- <-. exact Hc.
+        * eapply cmp_trans; [exact Hc|]. eapply Hab; eauto.
+      + apply sorted_cons_iff in Hs as [Hab Hs]. apply sorted_cons_iff. split; [|apply IH; exact Hs].
+        intros k' v' Hin. apply (in_sm_insert cmp) in Hin as [Heq|Hin].
+        * injection Heq as <- <-. rewrite cmp_antisym, Hc. reflexivity.
+        * eapply Hab; eauto.
+  Qed.
+
+  Lemma filter_sorted f (m : smap K V) : sm_sorted cmp m -> sm_sorted cmp (filter f m).
+  Proof.
+    induction m as [|[k0 v0] r IH]; intros Hs; [exact I|].
+    apply sorted_cons_iff in Hs as [Hab Hs]. cbn [filter].
+    destruct (f (k0, v0)); [|apply IH; exact Hs].
+    apply sorted_cons_iff. split; [|apply IH; exact Hs].
+    intros k' v' Hin. apply filter_In in Hin as [Hin _]. eapply Hab; eauto.
+  Qed.
+
+  Lemma in_sm_remove k x (m : smap K V) : In x (sm_remove cmp k m) -> In x m.
+  Proof.
+    induction m as [|[k1 v1] r IHr]; [auto|].
+    cbn [sm_remove]. destruct (cmp k k1); [intros H; right; exact H| |];
+      (intros [Heq|Hin]; [left; exact Heq|right; apply IHr; exact Hin]).
+  Qed.
+
+  Lemma sm_remove_sorted k (m : smap K V) : sm_sorted cmp m -> sm_sorted cmp (sm_remove cmp k m).
+  Proof.
+    induction m as [|[k0 v0] r IH]; intros Hs; [exact I|].
+    apply sorted_cons_iff in Hs as [Hab Hs]. cbn [sm_remove].
+    destruct (cmp k k0); try exact Hs.
+    - apply sorted_cons_iff. split; [|apply IH; exact Hs].
+      intros k' v' Hin. eapply Hab. eapply in_sm_remove; eauto.
+    - apply sorted_cons_iff. split; [|apply IH; exact Hs].
+      intros k' v' Hin. eapply Hab. eapply in_sm_remove; eauto.
+  Qed.
+
+  Lemma sorted_in_get k v (m : smap K V) : sm_sorted cmp m -> In (k, v) m -> sm_get cmp k m = Some v.
+  Proof.
+    induction m as [|[k0 v0] r IH]; intros Hs Hin; [destruct Hin|].
+    apply sorted_cons_iff in Hs as [Hab Hs]. cbn [sm_get]. destruct Hin as [Heq|Hin].
+    - injection Heq as -> ->. rewrite (proj2 (cmp_eq k k) eq_refl). reflexivity.
+    - pose proof (Hab _ _ Hin) as Hlt. rewrite cmp_antisym, Hlt. cbn. apply IH; assumption.
+  Qed.
+
+  Lemma sorted_nodup_keys (m : smap K V) : sm_sorted cmp m -> NoDup (map fst m).
+  Proof.
+    induction m as [|[k0 v0] r IH]; intros Hs; [constructor|].
+    apply sorted_cons_iff in Hs as [Hab Hs]. cbn. constructor; [|apply IH; exact Hs].
+    intros Hin. apply in_map_iff in Hin as ([k' v'] & Hk & Hin). cbn in Hk. subst k'.
+    pose proof (Hab _ _ Hin) as Hlt. rewrite (proj2 (cmp_eq k0 k0) eq_refl) in Hlt. discriminate.
+  Qed.
+End Sorted.
